@@ -668,6 +668,8 @@ func execGslb(f []string) string {
 					req.HttpRequest.Header[spec] = []string{string(hv)}
 				} else {
 					req.HttpRequest.Header.Set(spec, string(hv))
+					req.HttpRequest.Header.Add(spec, "DECOYSECOND") // Header.Get returns the first value
+					req.HttpRequest.Header.Set(spec+"-X", "DECOYOTHER")
 				}
 			}
 			if p[2] != "n" {
@@ -679,7 +681,10 @@ func execGslb(f []string) string {
 				if !isCk || ckName == "" {
 					ckName = "sid"
 				}
-				req.HttpRequest.Header.Set("Cookie", "x=1; "+ckName+"="+string(cv)+"; y=2")
+				// decoys around the real cookie: the name in the other letter case, names that merely contain it, and a
+				// later duplicate (the first cookie of a name wins)
+				req.HttpRequest.Header.Set("Cookie", "x=1; "+swapCase(ckName)+"=DECOYCASE; "+ckName+"x=DECOYSUFFIX; x"+ckName+
+					"=DECOYPREFIX; "+ckName+"="+string(cv)+"; y=2; "+ckName+"=DECOYDUP")
 			}
 			if p[3] != "-" {
 				u, ok := vh.UnHex(p[3])
@@ -718,6 +723,23 @@ func execGslb(f []string) string {
 		out = append(out, key+";"+sub+";"+res)
 	}
 	return strings.Join(out, ",")
+}
+
+// swapCase flips the case of every ASCII letter (cookie names are case sensitive); unchanged names get a suffix
+func swapCase(s string) string {
+	b := []byte(s)
+	for i, c := range b {
+		switch {
+		case c >= 'a' && c <= 'z':
+			b[i] = c - 32
+		case c >= 'A' && c <= 'Z':
+			b[i] = c + 32
+		}
+	}
+	if string(b) == s {
+		return s + "_"
+	}
+	return string(b)
 }
 
 func alnum(b []byte) bool {
